@@ -91,27 +91,32 @@ structure GenAcc where
   skipped : List Ptr := []
   stop : Bool := false
 
+/-- append one pointer to the batch being built; reaching `limit` stops the iteration -/
+def addPtr (limit : Nat) (acc : GenAcc) (ptr : Ptr) : GenAcc :=
+  { acc with pool := { acc.pool with batched := setIns acc.pool.batched ptr },
+             result := acc.result ++ [ptr],
+             stop := (acc.result ++ [ptr]).length == limit }
+
 def drainSkipped (limit : Nat) : Nat → GenAcc → Ptr → GenAcc
   | 0, acc, _ => acc
   | fuel+1, acc, ptr =>
     if ptr ∈ acc.skipped then
-      let acc1 := { acc with pool := { acc.pool with batched := setIns acc.pool.batched ptr }, result := acc.result ++ [ptr] }
-      if acc1.result.length == limit then { acc1 with stop := true }
-      else drainSkipped limit fuel acc1 (ptr.1, ptr.2 + 1)
+      let acc1 := addPtr limit acc ptr
+      if acc1.stop then acc1 else drainSkipped limit fuel acc1 (ptr.1, ptr.2 + 1)
     else acc
 
+def eligible (p : Pool) (a : String) (n cn : Nat) : Bool :=
+  (n ≥ 1 && decide ((a, n - 1) ∈ p.batched)) || n == cn
+
 def genStep (limit : Nat) (acc : GenAcc) (k : Int × String × Nat) : GenAcc :=
-  if acc.stop then acc else
-  let a := k.2.1
-  let n := k.2.2
-  if (a, n) ∈ acc.pool.batched then acc else
-  let (p1, cn) := getCommit acc.pool a
-  let seenPrev := n ≥ 1 && decide ((a, n - 1) ∈ p1.batched)
-  if seenPrev || n == cn then
-    let acc1 : GenAcc := { acc with pool := { p1 with batched := setIns p1.batched (a, n) }, result := acc.result ++ [(a, n)] }
-    if acc1.result.length == limit then { acc1 with stop := true }
-    else drainSkipped limit (acc1.skipped.length + 1) acc1 (a, n + 1)
-  else { acc with pool := p1, skipped := setIns acc.skipped (a, n) }
+  if acc.stop then acc
+  else if (k.2.1, k.2.2) ∈ acc.pool.batched then acc
+  else
+    let r := getCommit acc.pool k.2.1
+    if eligible r.1 k.2.1 k.2.2 r.2 then
+      let acc1 := addPtr limit { acc with pool := r.1 } (k.2.1, k.2.2)
+      if acc1.stop then acc1 else drainSkipped limit (acc1.skipped.length + 1) acc1 (k.2.1, k.2.2 + 1)
+    else { acc with pool := r.1, skipped := setIns acc.skipped (k.2.1, k.2.2) }
 
 /-- `generateBlock`; `none` = the "batch with 0 txs" error -/
 def generateBlock (p : Pool) : Pool × Option Batch :=
